@@ -183,19 +183,26 @@ theorem zero_length_spec (o : Nat) (v : ByteArray) (s : Frame) (hv : v.size = 0)
     memNeed o 0 = 0 ∧ ∃ s', (memWrite Quirks.spec o v s).val = (some (), s') ∧ s'.mem = s.mem ∧ s'.err = s.err := by
   refine ⟨memNeed_zero o, ?_⟩
   rw [memWrite_zero_spec Quirks.spec o v s rfl hv]
-  refine ⟨_, rfl, ?_, ?_⟩ <;> split <;> rfl
+  exact ⟨_, rfl, rfl, rfl⟩
 
-/-- Implementation mode (recorded deviation `zero_length_grows_memory`): a zero-length write at an offset beyond the
-    capacity grows the memory to exactly that offset — MSIZE then reports `o`, which need not be a multiple of 32. -/
-theorem zero_length_grows_memory_impl (o : Nat) (v : ByteArray) (s : Frame) (hv : v.size = 0) (ho : s.mem.size < o)
+/-- The implementation BEFORE the repair (`Quirks.implBeforeZeroLenFix`; was the recorded deviation `zero_length_grows_memory`): a
+    zero-length write at an offset beyond the capacity grew the memory to exactly that offset — MSIZE then reported `o`, which
+    need not be a multiple of 32, and nothing had been paid for it. -/
+theorem zero_length_grows_memory_before_fix (o : Nat) (v : ByteArray) (s : Frame) (hv : v.size = 0) (ho : s.mem.size < o)
     (hcap : o ≤ memCap) :
-    ∃ s', (memWrite Quirks.impl o v s).val = (some (), s') ∧ s'.mem.size = o := by
-  rw [memWrite_ok Quirks.impl o v s (Or.inr rfl) (by omega)]
+    ∃ s', (memWrite Quirks.implBeforeZeroLenFix o v s).val = (some (), s') ∧ s'.mem.size = o := by
+  rw [memWrite_ok Quirks.implBeforeZeroLenFix o v s (Or.inr rfl) (by omega)]
   refine ⟨_, rfl, ?_⟩
   have hc := memCap_val
   simp only []
   rw [size_wr _ _ _ (by omega)]
   omega
+
+/-- The implementation as it is now: a zero-length write touches nothing, as in the specification. -/
+theorem zero_length_impl (o : Nat) (v : ByteArray) (s : Frame) (hv : v.size = 0) :
+    ∃ s', (memWrite Quirks.impl o v s).val = (some (), s') ∧ s'.mem = s.mem ∧ s'.err = s.err := by
+  rw [memWrite_zero_spec Quirks.impl o v s rfl hv]
+  exact ⟨_, rfl, rfl, rfl⟩
 
 -- ---------------------------------------------------------------- data reads
 
@@ -477,7 +484,7 @@ example : ∃ (s : Frame) (m : Mem), Rep s.mem m ∧ s.err = none ∧ s.stack = 
 example : ∃ (s : Frame) (m : Mem), Rep s.mem m ∧ s.err = none ∧ s.stack = 7 :: [] ∧ 2 ≤ s.gas ∧ 7 + 32 ≤ memCap :=
   ⟨{ gas := 10, stack := [7] }, Mem.empty, rep_empty, rfl, rfl, by decide, by decide⟩
 
-/-- the hypotheses of `zero_length_grows_memory_impl`: an empty memory and the offset 5 -/
+/-- the hypotheses of `zero_length_grows_memory_before_fix`: an empty memory and the offset 5 -/
 example : ∃ (s : Frame) (v : ByteArray), v.size = 0 ∧ s.mem.size < 5 ∧ 5 ≤ memCap :=
   ⟨{ gas := 0 }, .empty, rfl, by decide, by decide⟩
 
@@ -494,7 +501,7 @@ example : ValidJump (bl exCode) 2 ∧ ¬ ValidJump (bl exCode) 1 := ⟨ex_valid_
 
 /-- the hypotheses of `stack_limit_spec` / `stack_limit_impl` about the mode -/
 example : Quirks.spec.noStackLimit = false ∧ Quirks.impl.noStackLimit = true ∧ Quirks.spec.zeroLenGrows = false ∧
-    Quirks.impl.zeroLenGrows = true := by decide
+    Quirks.impl.zeroLenGrows = false ∧ Quirks.implBeforeZeroLenFix.zeroLenGrows = true := by decide
 
 /-- specification sanity: DUP2, SWAP1 and a push at the limit -/
 example : Stack.dup 1024 [1, 2, 3] 2 = some [2, 1, 2, 3] ∧ Stack.swap [1, 2, 3] 1 = some [2, 1, 3] ∧
@@ -519,7 +526,8 @@ end Shentu.Props.C16m
 #print axioms Shentu.Props.C16m.msize_refines
 #print axioms Shentu.Props.C16m.write_beyond_cap
 #print axioms Shentu.Props.C16m.zero_length_spec
-#print axioms Shentu.Props.C16m.zero_length_grows_memory_impl
+#print axioms Shentu.Props.C16m.zero_length_grows_memory_before_fix
+#print axioms Shentu.Props.C16m.zero_length_impl
 #print axioms Shentu.Props.C16m.calldataload_refines
 #print axioms Shentu.Props.C16m.calldataload_impl_fails
 #print axioms Shentu.Props.C16m.calldataload_impl_agrees
